@@ -46,6 +46,10 @@ def run(tier):
         scen.append({"shape": kn, "seed": i, "secret": 100 + i,
                      "threads": [1, 2, 3, 8, 16] if (tier == "thorough" or i < 2) else [1, 3, 16],
                      "downsize": list(range(1, kn["k"] + 3)) if (tier == "thorough" or i == 0) else [1, kn["k"], kn["k"] + 2]})
+    # the smallest admissible domain: 2^k equals the rows the constraint system needs for blinding (+ 2 usable rows)
+    tiny = {"k": 3, "adv": [3], "chal": [0], "unblinded": 0, "inst": 0, "committed": 0, "inst_lens": [], "deg": 3,
+            "lookups": 0, "lookup_any": 0, "trash": 0, "perm": 0, "seed": 5, "ops": 0}
+    scen.append({"shape": tiny, "seed": 1000, "secret": 77, "threads": [1, 3, 16], "downsize": [1, 3, 5]})
     scen.append({"stdlib": True, "secret": 9, "shape": scen[0]["shape"]})
     chunks = [scen[i::vlib.NCPU] for i in range(vlib.NCPU)]
     jobs = []
